@@ -84,25 +84,25 @@ type Run struct {
 	hist     []string
 	keepHist bool
 
-	lastAllocTs  uint64
-	maxAckedTs   uint64
-	inFlight     map[uint64]bool // commit ts allocated, not yet done
-	heightRng    *rand.Rand
-	startTime    time.Time
-	extra        func(r *Run) // scenario-specific end-of-run checks (inside the bubble, DB open)
-	harness      string
-	pmu          sync.Mutex
-	disk         *DiskTracker
-	phase        string
-	wms          map[string]*wmState
-	curRec       map[int64]*CommitRec // commit whose entries are currently being reported, per goroutine
-	subByGid     map[int64]*extraState
-	subSeq       int
-	seqSeen      map[string]map[uint64]string
-	maxAppliedTs uint64
+	lastAllocTs   uint64
+	maxAckedTs    uint64
+	inFlight      map[uint64]bool // commit ts allocated, not yet done
+	heightRng     *rand.Rand
+	startTime     time.Time
+	extra         func(r *Run) // scenario-specific end-of-run checks (inside the bubble, DB open)
+	harness       string
+	pmu           sync.Mutex
+	disk          *DiskTracker
+	phase         string
+	wms           map[string]*wmState
+	curRec        map[int64]*CommitRec // commit whose entries are currently being reported, per goroutine
+	subByGid      map[int64]*extraState
+	subSeq        int
+	seqSeen       map[string]map[uint64]string
+	maxAppliedTs  uint64
 	pendingVerify []string
-	maxDiscardTs uint64               // highest discard watermark any compaction used so far
-	compactions  int
+	maxDiscardTs  uint64 // highest discard watermark any compaction used so far
+	compactions   int
 }
 
 func dumpAllStacks() {
